@@ -1033,6 +1033,9 @@ def _mutants():
         M("greedy-prod-sum-swapped", D, "if is_probs:\n        max_ = max_.prod(1)\n    else:\n        max_ = max_.sum(1)", "if is_probs:\n        max_ = max_.sum(1)\n    else:\n        max_ = max_.prod(1)", "neutral-elements"),
         M("module-drops-eos", D, "return sequence_log_probs(logits, hyp, self.dim, self.eos)", "return sequence_log_probs(logits, hyp, self.dim)", "G5/S1"),
         M("walk-slots-swapped", D, "y, log_probs = random_walk_advance(log_probs_t, log_probs, y, y_lens)", "log_probs, y = random_walk_advance(log_probs_t, log_probs, y, y_lens)", "G2"),
+        M("walk-score-keeps-growing", D, "log_probs_next = log_probs_prev + log_probs_t.gather(1, y_t).squeeze(1)", "log_probs_next = log_probs_prev + log_probs_t.gather(1, y_t).squeeze(1) - 1", "walk-table"),
+        M("walk-state-not-threaded", D, "log_probs_t, prev = self.lm.calc_idx_log_probs(y[:t], prev, t)\n            log_probs_t = log_probs_t.log_softmax(-1)\n\n            # update probabilities if the subclass",
+          "log_probs_t, _ = self.lm.calc_idx_log_probs(y[:t], prev, t)\n            log_probs_t = log_probs_t.log_softmax(-1)\n\n            # update probabilities if the subclass", "walk-table"),
         M("walk-len-always", D, "y_lens += ~eos_mask", "y_lens += 1\n                eos_mask = eos_mask", "length-counts"),
         M("dist-other-eos", D, "sequence_log_probs = SequenceLogProbabilities(1, self.random_walk.eos)", "sequence_log_probs = SequenceLogProbabilities(1, None)", "scores-with-the-walk's-eos"),
         M("dist-pad-zero", D, "samples = torch.nn.utils.rnn.pad_sequence(samples, padding_value=self.random_walk.eos)", "samples = torch.nn.utils.rnn.pad_sequence(samples, padding_value=0)", "pads-with-eos"),
